@@ -187,6 +187,9 @@ def check_record(ctx, r, v, rules, audit, pending):
                     if ch == "x":
                         if not any(a.endswith("x") for a in acc):
                             bad = "access: requested x, rule has %s" % acc
+                    elif ch == "a":
+                        if not ({"a", "w"} & letters):
+                            bad = "access: requested a, rule `%s`" % x["text"]
                     elif ch in MASK_LETTERS:
                         need.add(MASK_LETTERS[ch])
                 if need - letters:
